@@ -410,4 +410,44 @@ theorem RefExact.of_relabel {m m' : Mgr} {ext : Nat → Nat} {f : Nat → Nat} (
     rw [href] at hu
     exact h.extZero u hu
 
+/-! ### a decidable sufficient check for `ReqOrder` -/
+
+/-- `order` has one entry per declared variable, names every level's variable, all ranks are in
+`0..n-1` and no two names share a rank -/
+def reqOrderB (order : List (String × Int)) (m : Mgr) : Bool :=
+  decide (order.length = m.nvars) &&
+  (List.range m.nvars).all (fun i => match m.tbl.l2v[i]? with
+    | some v => (order.lookup v).isSome
+    | none => false) &&
+  order.all (fun p => decide (0 ≤ p.2) && decide (p.2 < (m.nvars : Int))) &&
+  order.all (fun p => order.all (fun p' => p.2 != p'.2 || p.1 == p'.1))
+
+theorem mem_of_lookup {l : List (String × Int)} {v : String} {p : Int} (h : l.lookup v = some p) :
+    (v, p) ∈ l := by
+  obtain ⟨l1, l2, rfl, -⟩ := List.lookup_eq_some_iff.mp h
+  simp
+
+theorem reqOrder_of_check {order : List (String × Int)} {m : Mgr} (h : reqOrderB order m = true) :
+    ReqOrder order m := by
+  unfold reqOrderB at h
+  simp only [Bool.and_eq_true, decide_eq_true_eq, List.all_eq_true] at h
+  obtain ⟨⟨⟨hlen, hcov⟩, hrange⟩, hinj⟩ := h
+  refine ⟨hlen, ?_, ?_, ?_⟩
+  · intro i hi
+    have := hcov i (List.mem_range.mpr hi)
+    cases hl : m.tbl.l2v[i]? with
+    | none => rw [hl] at this; cases this
+    | some v =>
+      rw [hl] at this
+      obtain ⟨p, hp⟩ := Option.isSome_iff_exists.mp this
+      exact ⟨v, p, rfl, hp⟩
+  · intro v p hp
+    have := hrange (v, p) (mem_of_lookup hp)
+    simp only [Bool.and_eq_true, decide_eq_true_eq] at this
+    exact this
+  · intro v v' p hp hp'
+    have := hinj (v, p) (mem_of_lookup hp) (v', p) (mem_of_lookup hp')
+    simp only [bne_self_eq_false, Bool.false_or, beq_iff_eq] at this
+    exact this
+
 end DD
